@@ -407,3 +407,7 @@ mod tests {
         assert!(*trade_vols == vec![0, 0, 30]);
     }
 }
+
+#[cfg(any(kani, verif_replay))]
+#[path = "/verif/harness/market_env_proofs.rs"]
+pub(crate) mod verif_proofs;
